@@ -128,12 +128,17 @@ func vfC18Case(env *vfEnv, part *vfPart, i int) {
 		nWills = rng.Range(5, 7)
 	}
 	willUnlock := rng.Chance(50)
+	// where the will-unlock is registered among the will locks (0 = before all of them, nWills = after all)
+	unlockPos := 0
+	if willUnlock && nWills > 0 {
+		unlockPos = rng.Intn(nWills + 1)
+	}
 	takeH1 := rng.Chance(70)
 	leaveQueued := rng.Chance(70)
 	qTimeout := uint16(rng.Range(2, 9))
 	h1Expried := uint16(rng.Range(3, 12))
 	endMode := rng.Intn(3) // 0 client close, 1 protocol error, 2 server-side close (QUIT)
-	c.note("subject text=%v init=%v reconnect=%v wills=%d willUnlock=%v takeH1=%v queued=%v qTimeout=%d h1Expried=%d endMode=%d", text, withInit, reconnect, nWills, willUnlock, takeH1, leaveQueued, qTimeout, h1Expried, endMode)
+	c.note("subject text=%v init=%v reconnect=%v wills=%d willUnlock=%v(at %d) takeH1=%v queued=%v qTimeout=%d h1Expried=%d endMode=%d", text, withInit, reconnect, nWills, willUnlock, unlockPos, takeH1, leaveQueued, qTimeout, h1Expried, endMode)
 	part.Add(fmt.Sprintf("lifetimes_text_%v", text), 1)
 	part.Add(fmt.Sprintf("lifetimes_end_mode_%d", endMode), 1)
 	part.Add("wills_registered", int64(nWills))
@@ -160,12 +165,18 @@ func vfC18Case(env *vfEnv, part *vfPart, i int) {
 			if !ok(v, err, "text lock H0") {
 				return
 			}
-			v, err = st.call("UNLOCK", "c18-H0", "LOCK_ID", "subj-H0", "WILL", "1")
-			if !ok(v, err, "text will unlock") {
-				return
-			}
+		}
+		textWillUnlock := func() bool {
+			v, err := st.call("UNLOCK", "c18-H0", "LOCK_ID", "subj-H0", "WILL", "1")
+			return ok(v, err, "text will unlock")
+		}
+		if willUnlock && unlockPos == 0 && !textWillUnlock() {
+			return
 		}
 		for w := 0; w < nWills; w++ {
+			if willUnlock && unlockPos == w && w > 0 && !textWillUnlock() {
+				return
+			}
 			v, err := st.call("LOCK", "c18-W", "LOCK_ID", fmt.Sprintf("will-%d", w), "TIMEOUT", "0", "EXPRIED", "900", "COUNT", "65535", "RCOUNT", "4", "WILL", "1", "APPEND", letters[w:w+1])
 			if !ok(v, err, "text will lock") {
 				return
@@ -174,6 +185,9 @@ func vfC18Case(env *vfEnv, part *vfPart, i int) {
 				c.note("text will registration answered %s", v.String())
 			}
 			expectW += letters[w : w+1]
+		}
+		if willUnlock && unlockPos == nWills && nWills > 0 && !textWillUnlock() {
+			return
 		}
 		if takeH1 {
 			v, err := st.call("LOCK", "c18-H1", "LOCK_ID", "subj-H1", "TIMEOUT", "0", "EXPRIED", strconv.Itoa(int(h1Expried)))
@@ -201,14 +215,23 @@ func vfC18Case(env *vfEnv, part *vfPart, i int) {
 				fail("subject lock H0", fmt.Errorf("%v %+v", err, r))
 				return
 			}
+		}
+		binWillUnlock := func() bool {
 			u := unlockCmd(keyH0, h0Id)
 			u.CommandType = protocol.COMMAND_WILL_UNLOCK
 			if _, err := sb.sendLock(u); err != nil {
 				fail("subject will unlock", err)
-				return
+				return false
 			}
+			return true
+		}
+		if willUnlock && unlockPos == 0 && !binWillUnlock() {
+			return
 		}
 		for w := 0; w < nWills; w++ {
+			if willUnlock && unlockPos == w && w > 0 && !binWillUnlock() {
+				return
+			}
 			l := lockCmd(keyW, vfKey16(fmt.Sprintf("will-%d", w)), 0, 900, 0xffff)
 			l.CommandType = protocol.COMMAND_WILL_LOCK
 			l.Rcount = 3 // re-entrant: a will executed twice would show as depth 2 and a doubled letter
@@ -218,6 +241,9 @@ func vfC18Case(env *vfEnv, part *vfPart, i int) {
 				return
 			}
 			expectW += letters[w : w+1]
+		}
+		if willUnlock && unlockPos == nWills && nWills > 0 && !binWillUnlock() {
+			return
 		}
 		if takeH1 {
 			if r, err := sb.call(lockCmd(keyH1, h1Id, 0, h1Expried, 0)); err != nil || r.Result != protocol.RESULT_SUCCED {
